@@ -46,6 +46,11 @@ func condKey(info *types.Info, e ast.Expr) string {
 }
 
 func (c *Ctx) CondFacts(body *ast.BlockStmt, info *types.Info, extra func(n ast.Node) []Effect) *CondFacts {
+	return c.CondFactsX(body, info, extra, nil)
+}
+
+// CondFactsX additionally lets a rule derive its own facts from a decided atomic condition.
+func (c *Ctx) CondFactsX(body *ast.BlockStmt, info *types.Info, extra func(n ast.Node) []Effect, extraAtom func(cond ast.Expr, truth bool) []Fact) *CondFacts {
 	cf := &CondFacts{g: c.CFG(body, info), info: info, exprs: map[string]ast.Expr{}}
 	var spec *FactSpec
 	depth := 0
@@ -70,6 +75,9 @@ func (c *Ctx) CondFacts(body *ast.BlockStmt, info *types.Info, extra func(n ast.
 			p := "F"
 			if truth {
 				p = "T"
+			}
+			if extraAtom != nil {
+				out = append(out, extraAtom(cond, truth)...)
 			}
 			return append(out, Fact{p, k})
 		},
